@@ -99,6 +99,7 @@ func runC19(a *A) {
 			}
 		}
 	})
+	a.Rule("locks/receive-under-lock", 2, func() { a.ruleReceiveUnderLock() })
 	a.Rule("flow/migration", 3, func() {
 		fn := a.Method("stream", "Stream", "expandDataChannel")
 		dc := a.FieldOf(S(), "dataChan")
@@ -434,4 +435,48 @@ func drainAfter(st *ssa.Store, dc *types.Var) ssa.Instruction {
 		}
 		return false
 	}, nil)
+}
+
+// ruleReceiveUnderLock: an expansion moves the buffered rows from the old input channel to the new one
+// under dataChanMux.Lock. Rows keep their order only if nobody else can receive from the old channel
+// while that happens: every receive from Stream.dataChan (directly or through a reference read from
+// the field) holds dataChanMux, shared or exclusive. A consumer that reads the reference under the
+// lock and receives after releasing it can take a row out of the middle of a migration and process it
+// before the older rows being moved.
+func (a *A) ruleReceiveUnderLock() int {
+	S := a.Named("stream", "Stream")
+	dc := a.FieldOf(S, "dataChan")
+	L := a.Locks()
+	key := lockKey{"stream.Stream", "dataChanMux"}
+	n := 0
+	for _, fn := range a.ModFuncs {
+		allInstrs(fn, func(in ssa.Instruction) {
+			var chans []ssa.Value
+			switch x := in.(type) {
+			case *ssa.UnOp:
+				if x.Op == token.ARROW {
+					chans = append(chans, x.X)
+				}
+			case *ssa.Select:
+				for _, st := range x.States {
+					if st.Dir == types.RecvOnly {
+						chans = append(chans, st.Chan)
+					}
+				}
+			}
+			for _, ch := range chans {
+				direct, cached := isDataChan(ch, dc)
+				if !direct && !cached {
+					continue
+				}
+				n++
+				held := L.Held(in)
+				_, ok := held[key]
+				a.Check(ok, "recv(dataChan)@"+fname(fn), in.Pos(),
+					"receives from the input buffer while holding dataChanMux: not concurrent with a migration",
+					fmt.Sprintf("receives from the input buffer without holding dataChanMux (lockset %s): it can take a row from the old channel while an expansion is moving older rows to the new one, and that row is processed first", held))
+			}
+		})
+	}
+	return n
 }
